@@ -32,7 +32,8 @@ def run(run, ix, tier):
                        'transcendental kernels are accurate inside their guard bits']
     run.trusted = ['sa/round_flow.py', 'sa/iv_dir.py MONO table', 'tables.C_OPERAND_EXEMPT']
     run.rule('C-R1', floor=25)
-    run.rule('C-R2', floor=1)
+    run.rule('C-R2', floor=0)       # since repair 728ceda no rectangle function calls a directed kernel on a rounded
+                                    # operand itself: the corner values of gamma go through mpc_outward (C-R14c / C-R19c)
     run.rule('C-R3', floor=45)
     run.rule('C-R8', floor=8, desc='operator machinery: operand order and kernel pairing')
     common(run, ix, complex_=True)
@@ -60,8 +61,127 @@ def run(run, ix, tier):
     from . import c14
     run.rule('C-R5', floor=1, desc='kernels called with a directed mode by rectangle functions honour it')
     run.rule('C-R5g', floor=1, desc='... and do not round a weakly guarded undirected intermediate')
-    c14.check_directed_kernels(run, ix, callers=('mpci_',))
+    c14.check_directed_kernels(run, ix, callers=('mpci_', 'mpc_outward'))
     check_gamma_strip(run, ix)
+    check_complex_kernel_endpoints(run, ix)
+
+
+COMPLEX_TRANSCENDENTAL = ('mpc_loggamma', 'mpc_gamma', 'mpc_rgamma', 'mpc_factorial', 'mpc_exp', 'mpc_log', 'mpc_cos',
+                          'mpc_sin', 'mpc_pow', 'mpc_sqrt', 'mpc_psi', 'mpc_zeta')
+
+
+def check_complex_kernel_endpoints(run, ix):
+    """C-R14c / C-R19c.  A complex kernel called with round_floor / round_ceiling rounds an APPROXIMATION in that
+    direction: when the approximation is (nearly) representable the result lies on the wrong side of the true value
+    (iv.loggamma(z) with Re loggamma(z) = 4 + 4e-16 returned [3.996, 4.0] at 10 bits).  C-R14c: no rectangle function
+    takes a value from a complex transcendental kernel called with a directed mode; corner values go through
+    mpc_outward.  C-R19c: mpc_outward evaluates the kernel with >= 12 extra bits and the default rounding, builds the
+    allowance 2**(m + g - wp) from the magnitude m of the LARGER part (the kernels are accurate relative to the
+    modulus, not part by part), 0 < g < extra bits, subtracts it with round_floor / adds it with round_ceiling at
+    the caller's precision, and passes a value through unchanged only if it is special or both parts are zero."""
+    LIBMPI = 'mpmath/libmp/libmpi.py'
+    run.rule('C-R14c', floor=8, desc='rectangle endpoints from complex kernels go through mpc_outward')
+    run.rule('C-R19c', floor=4, desc='mpc_outward moves the part outward by an allowance relative to the modulus')
+    for f in ix.module(LIBMPI).funcs.values():
+        if not f.name.startswith('mpci_'):
+            continue
+        for c in _walk_own(f.node):
+            if not (isinstance(c, ast.Call) and isinstance(c.func, ast.Name)):
+                continue
+            if c.func.id in COMPLEX_TRANSCENDENTAL and any(norm(a) in ('round_floor', 'round_ceiling')
+                                                           for a in list(c.args) + [k.value for k in c.keywords]):
+                st = c
+                while not isinstance(st, ast.stmt):
+                    st = st._parent
+                run.fail(Finding('C-R14c', LIBMPI, f.qualname, norm(st),
+                                 'an endpoint is taken straight from %s(..., %s): the kernel rounds an approximation in '
+                                 'that direction, which is not a bound when the approximation is representable; no '
+                                 'outward widening follows' % (c.func.id, [norm(a) for a in c.args if norm(a).startswith('round_')][0]),
+                                 line=c.lineno))
+            elif c.func.id == 'mpc_outward' and c.args and norm(c.args[0]) in COMPLEX_TRANSCENDENTAL:
+                run.ok('C-R14c', '%s: %s through mpc_outward' % (f.qualname, norm(c, 70)))
+    h = ix.find_func(LIBMPI, 'mpc_outward')
+    if h is None:
+        if any(x.rule == 'C-R14c' for x in run.findings):
+            return
+        raise AnalysisError('mpc_outward not found')
+    P = h.params                     # f, z, prec, rounding, part
+    wp = [a for a in _walk_own(h.node) if isinstance(a, ast.Assign) and norm(a.targets[0]) == 'wp']
+    K = None
+    if wp and isinstance(wp[0].value, ast.BinOp) and isinstance(wp[0].value.op, ast.Add) and \
+            norm(wp[0].value.left) == P[2] and isinstance(wp[0].value.right, ast.Constant):
+        K = wp[0].value.right.value
+    ev = [a for a in _walk_own(h.node) if isinstance(a, ast.Assign) and isinstance(a.value, ast.Call) and
+          norm(a.value.func) == P[0]]
+    if K is not None and K >= 12 and ev and [norm(x) for x in ev[0].value.args] == [P[1], 'wp']:
+        run.ok('C-R19c', 'mpc_outward evaluates the kernel at prec + %d bits, default rounding' % K)
+    else:
+        run.fail(Finding('C-R19c', LIBMPI, 'mpc_outward', norm(ev[0]) if ev else 'def mpc_outward',
+                         'the kernel is not evaluated with at least 12 extra bits and its default rounding', line=h.lineno))
+        return
+    v = norm(ev[0].targets[0])
+    # the allowance
+    d = [a for a in _walk_own(h.node) if isinstance(a, ast.Assign) and isinstance(a.value, ast.Tuple) and
+         len(a.value.elts) == 4]
+    ok_d = False
+    why = 'no allowance tuple (0, 1, e, 1) found'
+    if d:
+        el = d[0].value.elts
+        e = el[2]
+        g = None
+        # max(mags) + g - wp
+        txt = norm(e).replace(' ', '')
+        import re as _re
+        m = _re.match(r'^max\((\w+)\)\+(\d+)-wp$', txt)
+        if norm(el[0]) == '0' and norm(el[1]) in ('MPZ_ONE', '1') and norm(el[3]) == '1' and m:
+            g = int(m.group(2))
+            mags = m.group(1)
+            md = [a for a in _walk_own(h.node) if isinstance(a, ast.Assign) and norm(a.targets[0]) == mags]
+            want = '[t[2] + t[3] for t in %s if t[1]]' % v
+            if not md or norm(md[0].value) != want:
+                why = 'the magnitude list is not that of the non-zero parts of the kernel value (`%s`)' % want
+            elif not (0 < g < K):
+                why = 'the allowance 2**%d units is not between one unit and the extra precision' % g
+            else:
+                ok_d = True
+        else:
+            why = 'the allowance is not 2**(max magnitude of the parts + g - wp): `%s`' % norm(d[0].value, 60)
+    if ok_d:
+        run.ok('C-R19c', 'allowance 2**(m + %d - wp) with m the magnitude of the larger part' % g)
+    else:
+        run.fail(Finding('C-R19c', LIBMPI, 'mpc_outward', norm(d[0]) if d else 'def mpc_outward', why, line=h.lineno))
+        return
+    dn = norm(d[0].targets[0])
+    x = [a for a in _walk_own(h.node) if isinstance(a, ast.Assign) and norm(a.value) == '%s[%s]' % (v, P[4])]
+    xn = norm(x[0].targets[0]) if x else None
+    rets = [r for r in _walk_own(h.node) if isinstance(r, ast.Return)]
+    down = [r for r in rets if norm(r.value) == 'mpf_sub(%s, %s, %s, round_floor)' % (xn, dn, P[2])]
+    up = [r for r in rets if norm(r.value) == 'mpf_add(%s, %s, %s, round_ceiling)' % (xn, dn, P[2])]
+    sel_ok = False
+    for r in down:
+        par = r._parent
+        if isinstance(par, ast.If) and r in par.body and norm(par.test) == '%s == round_floor' % P[3]:
+            sel_ok = True
+    if down and up and sel_ok:
+        run.ok('C-R19c', 'floor: part - allowance rounded down; otherwise part + allowance rounded up, at the caller\'s precision')
+    else:
+        run.fail(Finding('C-R19c', LIBMPI, 'mpc_outward', norm(rets[-1]) if rets else 'def mpc_outward',
+                         'the part is not moved as `mpf_sub(x, delta, prec, round_floor)` under `rounding == round_floor` '
+                         'and `mpf_add(x, delta, prec, round_ceiling)` otherwise', line=h.lineno))
+    for r in rets:
+        if r in down or r in up:
+            continue
+        par = r._parent
+        t = norm(par.test).replace(' ', '') if isinstance(par, ast.If) else ''
+        allowed = {'notmags', '(not%s[1]and%s[2])' % (xn, xn), 'not%s[1]and%s[2]' % (xn, xn)}
+        parts = set(norm(v_).replace(' ', '') for v_ in (par.test.values if isinstance(par, ast.If) and
+                    isinstance(par.test, ast.BoolOp) and isinstance(par.test.op, ast.Or) else
+                    ([par.test] if isinstance(par, ast.If) else [])))
+        if norm(r.value) == xn and parts and parts <= allowed:
+            run.ok('C-R19c', 'pass-through only for a special part or a value with no non-zero part: `if %s`' % norm(par.test, 50))
+        else:
+            run.fail(Finding('C-R19c', LIBMPI, 'mpc_outward', norm(r), 'the part is handed back without widening under '
+                             '`%s`' % (norm(par.test, 60) if isinstance(par, ast.If) else 'no condition'), line=r.lineno))
 
 
 def check_binary_op(run, ix):
